@@ -239,7 +239,7 @@ def run(ctx):
         return n['k'] == 'BinaryOperator' and n.get('op') == '==' and dsv.const_value(n['ch'][1]) == ord('I') and pol is True
     gI = dsv.gate_edges(isI)
     gnotI = dsv.gate_edges(lambda atom, pol: (dsv.N(atom)['k'] == 'BinaryOperator' and dsv.N(atom).get('op') == '==' and dsv.const_value(dsv.N(atom)['ch'][1]) == ord('I') and pol is False) or
-                           (dsv.N(atom)['k'] == 'CXXMemberCallExpr' and q.short_of(dsv.callee(atom)) == 'empty' and pol is True))
+                           (q.emptiness(dsv, atom, pol) or (None, False))[1])
     ctx.check(len(ccl) == 1 and len(csv) == 1 and dsv.only_through(ccl[0], gI), R6, 'dual::save:server-clear-only-for-I-cookie', 'server record cleared for a non-server cookie', dsv.where)
     if csv and ccl:
         reach = dsv.reachable_blocks(cut_edges=gnotI, cut_blocks=q.blocks_of(dsv, ccl), with_catch=False)
@@ -262,7 +262,9 @@ def run(ctx):
     tins = q.field_calls(msv, 'session_memory_storage::timeout_', 'insert')
     tw = q.field_writes(msv, '_data::timeout')
     pw = q.field_writes(msv, '_data::timeout_ptr')
-    ctx.check(len(tins) >= 2 and len(tins) == len(tw) == len(pw), R7, 'save:index-insert-per-branch', 'record and index are not updated together', msv.where)
+    # on every path through save the record deadline, the index entry and the back pointer are all (re)written
+    ctx.check(len(tins) >= 1 and len(tins) == len(tw) == len(pw) and q.always_before_exit(msv, tins) and q.always_before_exit(msv, tw) and q.always_before_exit(msv, pw), R7,
+              'save:index-insert-per-branch', 'record and index are not updated together', msv.where)
     for k, i in enumerate(tins):
         a = msv.args(i)[0]
         first = None
@@ -278,8 +280,7 @@ def run(ctx):
     ctx.check(len(er) == 1 and msv.only_through(er[0], g_found) and any(model.strip_targs(r).endswith('_data::timeout_ptr') for r in msv.subtree_refs(er[0])), R7,
               'save:old-index-entry-erased-on-overwrite', 'overwriting a record leaves its old expiry index entry', msv.where)
     if er:
-        later = [i for i in tins if msv.point_of(i)[0] == msv.point_of(er[0])[0]]
-        ctx.check(bool(later) and q.before(msv, er[0], later[0]), R7, 'save:erase-then-insert', 'new index entry inserted before the old one is erased', msv.where)
+        ctx.check(bool(tins) and q.always_after(msv, er[0], tins) and not any(q.reaches(msv, i, er[0]) for i in tins), R7, 'save:erase-then-insert', 'new index entry inserted before the old one is erased', msv.where)
     mrm = P.fn(MS + '::remove')
     e1 = q.field_calls(mrm, 'session_memory_storage::timeout_', 'erase')
     e2 = q.field_calls(mrm, 'session_memory_storage::map_', 'erase')
